@@ -37,7 +37,7 @@ ATOMS = {
     "uni": ("é", [], []),
     "plain": ("x", [], []),
 }
-ATOMS_QUICK = ("tag", "ctag", "cmt", "copy", "ent", "amp", "quot", "apos", "uni", "plain")
+ATOMS_QUICK = ("tag", "cmt", "copy", "amp", "quot", "apos", "uni")  # the random driver uses all atoms
 
 # site -> protos, status, source kind, reflects the source, path (see ErrorPage.tla)
 SITES = {
@@ -526,7 +526,7 @@ class Check(core.PropertyCheck):
         rng = random.Random(ctx.seed + 12)
         names = list(ATOMS)
         fill = ["", "a", "Zq", "0", "x-y", "%3C", "\\", "€", "~"]
-        for _ in range(600 if ctx.quick else 12000):
+        for _ in range(400 if ctx.quick else 12000):
             site = rng.choice(list(SITES))
             proto = rng.choice(SITES[site][0])
             atoms = [rng.choice(names) for _i in range(rng.randint(1, 7))]
